@@ -253,7 +253,15 @@ pub fn load_keys_map_from_disk() -> HashMap<String, u64> {
         // May I should move this out of here
         log::debug!("Will read from disck");
         let mut file = File::open(db_file_name).unwrap();
-        initial_db = bincode::deserialize_from(&mut file).unwrap();
+        // The file is only rewritten while the oplog is flagged invalid, so a half written one
+        // (process killed during the write) belongs to a log that start-up discards anyway
+        initial_db = match bincode::deserialize_from(&mut file) {
+            Ok(keys) => keys,
+            Err(e) => {
+                log::warn!("Keys map file is incomplete ({}), starting with an empty one", e);
+                HashMap::new()
+            }
+        };
     }
     return initial_db;
 }
